@@ -80,3 +80,64 @@ package compiler
 //@   property C04
 //@   requires kind: def.Kind == ast.KindConstantRef
 //
+//
+// C15 - schema transformations have their documented effect and touch nothing else.
+//
+// Matching is a read-only function of the reference and the object/field (strings.EqualFold on the
+// object name, exact comparison on the package).
+//@ func ObjectReference.Matches
+//@   property C15
+//@   pure
+//@   modifies nothing
+//
+//@ func ObjectReference.MatchesRef
+//@   property C15
+//@   pure
+//@   modifies nothing
+//
+//@ func ObjectReferences.Matches
+//@   property C15
+//@   pure
+//@   modifies nothing
+//
+//@ func FieldReference.Matches
+//@   property C15
+//@   pure
+//@   modifies nothing
+//
+// trailExtended(new, old): new is old plus one entry at the end.
+//@ spec trailExtended(n, o) = len(n) == len(o) + 1 && (forall t: int :: 0 <= t && t < len(o) ==> n[t] == o[t])
+//
+// retype_object: the matching object gets the new type (and the new comments when given); its
+// name, self reference are kept; every other object is returned as it was.
+//@ func (*RetypeObject).processObject
+//@   property C15
+//@   requires pass != nil
+//@   modifies object.PassesTrail[len(object.PassesTrail)]
+//@   ensures  noerr: result.1 == nil
+//@   ensures  untouched: !call("compiler.ObjectReference.Matches", pass.Object, object) ==> result.0 == object
+//@   ensures  effect: call("compiler.ObjectReference.Matches", pass.Object, object) ==> result.0.Type == pass.As && result.0.Name == object.Name && result.0.SelfRef == object.SelfRef
+//@   ensures  comments: call("compiler.ObjectReference.Matches", pass.Object, object) ==> (base(pass.Comments) == 0 ==> result.0.Comments == object.Comments) && (base(pass.Comments) != 0 ==> result.0.Comments == pass.Comments)
+//@   ensures  trail: call("compiler.ObjectReference.Matches", pass.Object, object) ==> trailExtended(result.0.PassesTrail, object.PassesTrail)
+//
+// append_comment_objects: every object gets the comment appended; nothing else changes.
+//@ func (*AppendCommentObjects).processObject
+//@   property C15
+//@   requires pass != nil
+//@   modifies object.PassesTrail[len(object.PassesTrail)], object.Comments[len(object.Comments)]
+//@   ensures  noerr: result.1 == nil
+//@   ensures  kept: result.0.Name == object.Name && result.0.Type == object.Type && result.0.SelfRef == object.SelfRef
+//@   ensures  comment: len(result.0.Comments) == len(object.Comments) + 1 && result.0.Comments[len(object.Comments)] == pass.Comment && (forall c: int :: 0 <= c && c < len(object.Comments) ==> result.0.Comments[c] == old(object.Comments[c]))
+//@   ensures  trail: trailExtended(result.0.PassesTrail, object.PassesTrail)
+//
+// schema_set_identifier / schema_set_entry_point: only schemas of the given package change, and only
+// in the documented fields.
+//@ func (*SchemaSetIdentifier).Process
+//@   property C15
+//@   requires pass != nil && (forall s: int :: 0 <= s && s < len(schemas) ==> schemas[s] != nil)
+//@   modifies schemas[*].Metadata.Identifier
+//@   ensures  same: result.0 == schemas && result.1 == nil
+//@   ensures  effect: forall s: int :: 0 <= s && s < len(schemas) ==> (schemas[s].Package == pass.Package ==> schemas[s].Metadata.Identifier == pass.Identifier) && (schemas[s].Package != pass.Package ==> schemas[s].Metadata.Identifier == old(schemas[s].Metadata.Identifier))
+//@   loop 0:
+//@     invariant done: forall s: int :: 0 <= s && s <= $i ==> (schemas[s].Package == pass.Package ==> schemas[s].Metadata.Identifier == pass.Identifier) && (schemas[s].Package != pass.Package ==> schemas[s].Metadata.Identifier == old(schemas[s].Metadata.Identifier))
+//@     invariant todo: forall s: int :: $i < s && s < len(schemas) ==> schemas[s].Metadata.Identifier == old(schemas[s].Metadata.Identifier)
